@@ -84,7 +84,7 @@ def _bin(check, repo, mod) -> None:
     except NotArithmetic as exc:
         raise AnalysisError(f"Dataset.bin: calibration statement not arithmetic: {exc}")
     ns, no = env.get("new_sampling[AX]"), env.get("new_origin[AX]")
-    check.decide(ns is not None and ns.equals(S * F), "C06-R1", "Dataset.bin: new_sampling = factor · sampling", str(ns), mod.line(loop),
+    check.decide(ns is not None and ns.equals(S * F), "C06-R1", "Dataset.bin: new_sampling = factor · sampling", str(ns), mod.line(loop), definite=ns is not None,
                  fail_detail=f"new_sampling[ax] evaluates to {ns}, the law is F·S")
     want = O + S * (F - Rat.const(1)) / Rat.const(2)
     check.decide(no is not None and no.equals(want), "C06-R1", "Dataset.bin: new_origin = origin + sampling·(factor−1)/2 (mean coordinate of the first block)",
@@ -165,7 +165,7 @@ def _bin_vector_calibration(check, mod, fn) -> None:
     if oi is None or of is None:
         raise AnalysisError(f"Dataset.bin: order of `{ivec}` / `{fvec}` not derivable")
     check.decide(oi == of, "C06-R1", "Dataset.bin: the axis vector and the factor vector of the calibration update are paired in the same order", f"{ivec}: {oi}, {fvec}: {of}",
-                 mod.line(sts[0]), fail_detail=f"`{ivec}` is in {oi} order but `{fvec}` in {of} order: for axes given in non-ascending order the sampling multiplier and the origin shift land on the "
+                 mod.line(sts[0]), definite=True, fail_detail=f"`{ivec}` is in {oi} order but `{fvec}` in {of} order: for axes given in non-ascending order the sampling multiplier and the origin shift land on the "
                                                f"wrong axes — extent and block-centre coordinates are no longer preserved")
     names = {v: k for k, v in vecs.items()}
     body = [_rename(n, {fvec: "F"}) for n in sts]
@@ -175,7 +175,7 @@ def _bin_vector_calibration(check, mod, fn) -> None:
     except NotArithmetic as exc:
         raise AnalysisError(f"Dataset.bin: calibration statement not arithmetic: {exc}")
     ns, no = env.get(f"{names['S']}[{ivec}]"), env.get(f"{names['O']}[{ivec}]")
-    check.decide(ns is not None and ns.equals(S * F), "C06-R1", "Dataset.bin: new_sampling = factor · sampling", str(ns), mod.line(sts[0]),
+    check.decide(ns is not None and ns.equals(S * F), "C06-R1", "Dataset.bin: new_sampling = factor · sampling", str(ns), mod.line(sts[0]), definite=ns is not None,
                  fail_detail=f"new_sampling[axes] evaluates to {ns}, the law is F·S")
     want = O + S * (F - Rat.const(1)) / Rat.const(2)
     check.decide(no is not None and no.equals(want), "C06-R1", "Dataset.bin: new_origin = origin + sampling·(factor−1)/2 (mean coordinate of the first block)",
